@@ -684,12 +684,12 @@ int main(int argc, char **argv) {
     return 0;
   }
   Scope sc = Scope::parse(scope_s);
-  strs U; gen_universe(sc.sigma, sc.L, U);
-  std::vector<uint32_t> sets = enum_sets(sc, U.size());
+  strs U; scope_universe(sc, U);
+  std::vector<setmask> sets = enum_sets(sc, U);
   int si = atoi(shard.c_str()), sn = atoi(shard.substr(shard.find('/') + 1).c_str());
   long idx = 0;
   std::set<str> distinct_cells;
-  for (uint32_t mask : sets) for (int pal : sc.pals) for (int st : sc.stretches) for (int pre : sc.pres) {
+  for (setmask mask : sets) for (int pal : sc.pals) for (int st : sc.stretches) for (int pre : sc.pres) {
     long my = idx++; units_total++;
     if (my % sn != si) continue;
     if (now_s() > deadline) { complete = false; continue; }
